@@ -302,6 +302,15 @@ def features(case):
             f.add(b)
             if sum(1 for c in COMPS if _applied(case, "<builtin>%s" % b, c)) >= 2:
                 f.add(b + "_on_two_types")
+    if alias_live(case):
+        f.add("array_alias_live")
+    arrs = array_names(case)
+    for ph in case["phases"]:
+        for c in ph["prog"]:
+            if c[0] == "stmt" and c[1][0] == "assign" and c[1][2] is None and c[1][3][0] == "nary" \
+                    and c[1][3][1] in ("sum", "prod") and any(a[0] == "var" and a[1] in arrs for a in c[1][3][2]) \
+                    and ('["assign", "%s", [' % c[1][1]) in txt:
+                f.add("array_arith_indexed")
     ncomp = sum(1 for c in COMPS if ("<state>%s" % c) in txt)
     if ncomp >= 2:
         f.add("components%d" % ncomp)
@@ -500,6 +509,85 @@ def uses_default(case):
     return bool(found)
 
 
+# ---- arrays copied by name (interpreter: by reference; Fortran: by value)
+ARRAY_FUNCS = ("<builtin>array", "<builtin>matmul", "<builtin>transpose", "<builtin>linear_solve", "<builtin>svd")
+
+
+def array_names(case):
+    """name -> length (None when unknown) of every variable that holds a <builtin>array-like array"""
+    out, changed = {}, True
+    while changed:
+        changed = False
+        for ph in case["phases"]:
+            for c in ph["prog"]:
+                if c[0] != "stmt":
+                    continue
+                k = c[1]
+                if k[0] == "call" and k[2] in ARRAY_FUNCS:
+                    n = k[3][0][1] if k[2] == "<builtin>array" and k[3] and k[3][0][0] == "int" else None
+                    for x in k[1]:
+                        if x not in out or (out[x] is None and n is not None):
+                            out[x], changed = n, True
+                if k[0] == "assign" and k[2] is None and not k[4] and k[3][0] == "var" and k[3][1] in out:
+                    if k[1] not in out or (out[k[1]] is None and out[k[3][1]] is not None):
+                        out[k[1]], changed = out[k[3][1]], True
+    return out
+
+
+def alias_copies(case):
+    """[(phase index, statement index, x, v)] of the assignments `x <- v` of an array variable by name"""
+    arrs = array_names(case)
+    return [(pi, ci, c[1][1], c[1][3][1]) for pi, ph in enumerate(case["phases"]) for ci, c in enumerate(ph["prog"])
+            if c[0] == "stmt" and c[1][0] == "assign" and c[1][2] is None and not c[1][4]
+            and c[1][3][0] == "var" and c[1][3][1] in arrs]
+
+
+def alias_live(case):
+    """an array is copied by name and BOTH names are used afterwards (or the source is persistent)"""
+    for pi, ci, x, v in alias_copies(case):
+        later = json.dumps(case["phases"][pi]["prog"][ci + 1:])
+        if persistent(v) or ('"%s"' % v in later and ('"%s"' % x in later or persistent(x))):
+            return True
+    return False
+
+
+def dealias(case):
+    """the same program with every copy by name written element-wise (None if a length is unknown)"""
+    import copy
+    arrs = array_names(case)
+    new = copy.deepcopy(strip(case))
+    for pi, ph in enumerate(new["phases"]):
+        prog = []
+        for c in ph["prog"]:
+            if c[0] == "stmt" and c[1][0] == "assign" and c[1][2] is None and not c[1][4] \
+                    and c[1][3][0] == "var" and c[1][3][1] in arrs:
+                n = arrs[c[1][3][1]]
+                if n is None:
+                    return None
+                x, v = c[1][1], c[1][3][1]
+                prog.append(["stmt", ["call", [x], "<builtin>array", [["int", n]], []]])
+                prog.append(["stmt", ["assign", x, ["var", "q9"], ["bin", "sub", ["var", v], ["var", "q9"]],
+                                      [["q9", ["int", 0], ["int", n]]]]])
+            else:
+                prog.append(c)
+        ph["prog"] = prog
+    return new
+
+
+def is_alias_finding(case, o):
+    """narrow matcher of the open finding array_alias_in_place_write: the states differ, the program copies an
+    array variable by name, and it stops failing when the copies are written element-wise"""
+    if o["kind"] != "state_differs" or not alias_copies(case):
+        return False
+    d = dealias(case)
+    if d is None:
+        return False
+    try:
+        return oracle(d, run_case(d)) is None
+    except Exception:  # noqa: BLE001
+        return False
+
+
 def _as_number(v):
     if isinstance(v, bool):
         return None
@@ -527,6 +615,11 @@ def classify(case, o):
     if o["kind"] == "generation_error" and o["exception"] == "ValueError" and "NoneType" in o["message"] \
             and "pow" in feats:
         return "power_kind_none"
+    if o["kind"] == "termination_differs" and "array_arith_indexed" in feats and not o.get("fortran_trapped") \
+            and o.get("fortran_rc") not in (0, None):
+        return "array_expression_lower_bound"
+    if is_alias_finding(case, o):
+        return "array_alias_in_place_write"
     if o["kind"] == "generation_error" and o["exception"] == "ValueError" \
             and "mismatched user types" in o["message"] and "elementwise_abs_on_two_types" in feats:
         return "elementwise_abs_two_user_types"
@@ -589,7 +682,8 @@ def end_to_coq(end):
 def modelled(case):
     """inside the expression language of coq/model/Lang.v"""
     feats = features(case)
-    return "pow" not in feats and "utype_arith" not in feats and "norm_2" not in feats and "linalg" not in feats
+    return "pow" not in feats and "utype_arith" not in feats and "norm_2" not in feats and "linalg" not in feats \
+        and "array_alias_live" not in feats and "array_arith_indexed" not in feats
 
 
 def case_term(case, res):
@@ -1038,6 +1132,40 @@ def linalg_case(rng):
             "nsteps": rng.choice([2, 3])}
 
 
+def alias_case(rng):
+    """an array copied by name, then an element written through one name and read through the other"""
+    V = lambda x: ["var", x]
+    I = lambda z: ["int", z]
+    S = lambda *a: ["nary", "sum", list(a)]
+    A = lambda x, rhs, loops=(), sub=None: ["stmt", ["assign", x, sub, rhs, [list(l) for l in loops]]]
+    SUB = lambda a, i: ["bin", "sub", a, i]
+    n = rng.choice([2, 3])
+    j = rng.randint(0, n - 1)
+    o = (j + 1) % n
+    init = {"<t>": 0, "<dt>": 1, "<p>x": rng.randint(0, 2), "<p>n": 0, "<p>m": 0}
+    fill = [["stmt", ["call", ["a"], "<builtin>array", [I(n)], []]],
+            A("a", S(V("i"), V("<p>x")), [("i", I(0), I(n))], sub=V("i"))]
+    form = rng.choice(["local", "local_rev", "chain", "persistent"])
+    if form == "persistent":
+        phases = [{"name": "pa", "next": "pb", "prog": [A("<p>x", S(V("<p>x"), I(1)))] + fill + [
+            A("<p>a", V("a")), A("a", I(9), sub=I(j)), A("<p>n", SUB(V("<p>a"), I(o)))]},
+            {"name": "pb", "next": "pb", "prog": [
+                A("x", V("<p>a")), A("x", S(I(7), V("<p>x")), sub=I(j)),
+                A("<p>m", S(SUB(V("<p>a"), I(j)), SUB(V("x"), I(o)))), A("<p>x", S(V("<p>x"), I(1)))]}]
+        return {"phases": phases, "initial": "pa", "init": init, "nsteps": 3}
+    prog = [A("<p>x", S(V("<p>x"), I(1)))] + fill
+    if form == "chain":
+        prog += [A("y", V("a")), A("x", V("y"))]
+    else:
+        prog += [A("x", V("a"))]
+    w, r_ = ("a", "x") if form == "local_rev" else ("x", "a")
+    # the value read through the other name; reading the written name as well orders the read after the write
+    prog += [A(w, S(I(7), V("<p>x")), sub=I(j)),
+             A("<p>n", S(SUB(V(r_), I(j)), SUB(V(w), I(o)))),
+             A("<p>m", SUB(V(w), I(j)))]
+    return {"phases": [{"name": "pa", "next": "pa", "prog": prog}], "initial": "pa", "init": init, "nsteps": 2}
+
+
 def gen_cases(tier, seed):
     rng = random.Random(seed * 104729 + 3)
     nrand = 24 if tier == "quick" else 600
@@ -1054,6 +1182,9 @@ def gen_cases(tier, seed):
     rng2 = random.Random(seed * 7919 + 11)
     for n in range(8 if tier == "quick" else 120):
         out.append(linalg_case(rng2))
+    rng3 = random.Random(seed * 31 + 5)
+    for n in range(4 if tier == "quick" else 40):
+        out.append(alias_case(rng3))
     return out
 
 
